@@ -2524,13 +2524,19 @@ func (r *client) resolveSerializer(message any) remote.Serializer {
 	if msgType == nil {
 		return r.dispatcher
 	}
+	// 1. exact concrete type: an entry registered for the message's dynamic
+	// type always wins over an interface entry, whatever the registration
+	// order (the default proto.Message entry is registered first).
 	for i := range r.serializers {
 		entry := &r.serializers[i]
-		if entry.iface.Kind() == reflect.Interface {
-			if msgType.Implements(entry.iface) {
-				return entry.serializer
-			}
-		} else if msgType == entry.iface {
+		if entry.iface.Kind() != reflect.Interface && msgType == entry.iface {
+			return entry.serializer
+		}
+	}
+	// 2. first registered interface the message implements.
+	for i := range r.serializers {
+		entry := &r.serializers[i]
+		if entry.iface.Kind() == reflect.Interface && msgType.Implements(entry.iface) {
 			return entry.serializer
 		}
 	}
